@@ -1,10 +1,230 @@
-"""C04: structural clauses (see DESIGN.md section 4)."""
+"""C04 beam search: plumbing (G1/G2), model state follows the surviving paths (G10/G16),
+index spaces (G14), finished-path forcing and padding sentinels (G13)."""
 from __future__ import annotations
 
-from rules import fwd as R_fwd
+import ast
+
+from sa.astutil import call_name, guards_of, is_const, is_neg_inf, parent_map, u
+from sa.defuse import ReachingDefs
+from sa.model import AnalysisError, own_calls, own_nodes
+from sa.resolve import bind_args
 from .common import Ctx, plumbing
+from .search_common import SearchLoop, check_index_spaces, make_call_summary
+
+MOD = "_decoding"
+ADV = "beam_search_advance"
 
 
 def run(ctx: Ctx):
-    plumbing(ctx, 'S1')
-    return dict(explanation='plumbing clauses only (work in progress)', decided=['S1'], not_decided=[])
+    col, pkg, res = ctx.col, ctx.pkg, ctx.res
+    rel = pkg.module(MOD).relname
+    adv = pkg.func(f"{MOD}::{ADV}")
+    fwd = pkg.func(f"{MOD}::BeamSearch.forward")
+    where = f"{rel}::{fwd.qualname}"
+    sl = SearchLoop(fwd, ADV, src_slot=3, n_slots=4)
+    rd = sl.rd
+    pm = sl.pm
+
+    # ---- S1 slots of the step function -------------------------------------------------------
+    # returned (y_next, y_next_lens, log_probs_next, next_src): the score slot must be the top-k values, the
+    # source slot must derive from the top-k indices divided by the vocabulary size
+    rda = ReachingDefs(adv.node)
+    ret = [st for st, _ in rda.return_envs][-1]
+    if not (isinstance(ret.value, ast.Tuple) and len(ret.value.elts) == 4):
+        raise AnalysisError("C04: beam_search_advance does not return a 4-tuple")
+    topk_assign = None
+    for n in own_nodes(adv.node):
+        if isinstance(n, ast.Assign) and isinstance(n.value, ast.Call) and isinstance(n.value.func, ast.Attribute) \
+                and n.value.func.attr == "topk" and isinstance(n.targets[0], ast.Tuple):
+            topk_assign = n
+    if topk_assign is None:
+        raise AnalysisError("C04: the top-k selection of beam_search_advance was not found")
+    val_name = [d.name for d in rda.defs if d.stmt is topk_assign and d.slot == (0,)][0]
+    ind_name = [d.name for d in rda.defs if d.stmt is topk_assign and d.slot == (1,)][0]
+    dscore = rda.derives(ret.value.elts[2], value_flow=True)
+    dsrc = rda.derives(ret.value.elts[3])
+    ok_score = any(d.stmt is topk_assign and d.slot == (0,) for d in dscore.defs) and not any(
+        d.stmt is topk_assign and d.slot == (1,) for d in dscore.defs)
+    ok_src = any(d.stmt is topk_assign and d.slot == (1,) for d in dsrc.defs) and any(
+        isinstance(c, ast.Call) and call_name(c) == "trunc_divide" for c in dsrc.calls())
+    col.ob("G2", "S1", f"{rel}::{ADV}::returned-slots(score=topk values, src=topk indices // V)", ok_score and ok_src,
+           f"the returned score slot must be the top-k values (`{val_name}`) and the source slot the top-k indices "
+           f"(`{ind_name}`) divided by the vocabulary size", rel, ret.lineno, sample=u(ret.value))
+    # the candidate scores are prefix score + extension score (joint), flattened over (beam, vocab)
+    cand = topk_assign.value.func.value
+    dc = rda.derives(cand, value_flow=True)
+    uses = {d.name for d in dc.defs if d.kind == "param"}
+    col.ob("G16", "S1", f"{rel}::{ADV}::candidates=prev+ext", {"log_probs_prev", "log_probs_t"} <= uses,
+           f"top-k is taken over scores deriving from {sorted(uses)}; it must be over log_probs_prev + log_probs_t",
+           rel, topk_assign.lineno, sample=u(topk_assign))
+    # token of a candidate = index % V ; source = index // V with the same V
+    mods = [n for n in own_nodes(adv.node) if isinstance(n, ast.BinOp) and isinstance(n.op, ast.Mod)
+            and u(n.left) == ind_name]
+    divs = [c for c in own_calls(adv.node) if call_name(c) == "trunc_divide" and c.args and u(c.args[0]) == ind_name]
+    okv = len(mods) == 1 and len(divs) == 1 and u(mods[0].right) == u(divs[0].args[1]) == "V"
+    col.ob("G12", "S1", f"{rel}::{ADV}::index=(src, token) over V", okv,
+           "candidate index is not split as (index // V, index % V) with the vocabulary size", rel,
+           topk_assign.lineno)
+
+    # ---- S2 model state follows survivors -------------------------------------------------------
+    in_next = sl.slot_name(sl.calc_assign, (1,))
+    ex = [c for c in own_calls(fwd.node) if isinstance(c.func, ast.Attribute) and c.func.attr == "extract_by_src"]
+    col.count("extract_by_src_sites", len(ex))
+    col.ob("G16", "S2", f"{where}::state-is-reordered", len(ex) >= 1, "the model state is never re-ordered by extract_by_src: it does not follow the surviving paths", rel, fwd.line)
+    for c in ex:
+        s = c.args[0]
+        sd = rd.defs_of(s) if isinstance(s, ast.Name) else ()
+        ok = bool(sd) and all(d.stmt is sl.calc_assign and d.slot == (1,) for d in sd)
+        col.ob("G16", "S2", f"{where}::extract_by_src(state of this step)", ok,
+               f"`{u(c)}` re-orders `{u(s)}`, which is not the state returned by this iteration's "
+               f"lm.calc_idx_log_probs (`{in_next}`): the model would continue from a stale state", rel, c.lineno,
+               sample=u(c))
+    # the state passed to calc on the next iteration is the extracted one (or the initial one)
+    prev_arg = sl.calc_assign.value.args[1]
+    kinds = set()
+    if isinstance(prev_arg, ast.Name):
+        for d in rd.defs_of(prev_arg):
+            v = d.value
+            if isinstance(v, ast.Call) and isinstance(v.func, ast.Attribute):
+                kinds.add(v.func.attr)
+            else:
+                kinds.add("?")
+    col.ob("G16", "S2", f"{where}::state-fed-to-next-step", kinds == {"update_input", "extract_by_src"},
+           f"the state passed to lm.calc_idx_log_probs comes from {sorted(kinds)}; expected the initial "
+           f"update_input state or the survivors' extract_by_src state", rel, sl.calc_assign.lineno, sample=sorted(kinds))
+    # the paths fed to calc/advance are the survivors of the previous step (y_prev <- y_next)
+    ynext = sl.slot_name(sl.adv_assign, (0,))
+    b = bind_args(sl.adv_call, adv, False)
+    got = {p.name: a for p, a, _ in b.pairs}
+    for formal, slot in (("y_prev", (0,)), ("y_prev_lens", (1,)), ("log_probs_prev", (2,))):
+        a = got.get(formal)
+        der = rd.derives(a, value_flow=True, stop=lambda d: d.stmt is sl.adv_assign,
+                         call_summary=make_call_summary(res, fwd)) if a is not None else None
+        ok = der is not None and any(d.stmt is sl.adv_assign and d.slot == slot for d in der.defs) and not any(
+            d.stmt is sl.adv_assign and d.slot not in (slot,) and d.slot != (3,) for d in der.defs)
+        col.ob("G2", "S2", f"{where}::{ADV}({formal}<-slot {slot[0]} of the previous step)", ok,
+               f"`{formal}` of the next step (`{u(a) if a is not None else None}`) is not fed from the same slot of "
+               f"the previous step's result", rel, sl.adv_call.lineno, sample=u(a) if a is not None else None)
+
+    # ---- S3 index spaces -------------------------------------------------------------------------------
+    n_g, n_e = check_index_spaces(col, sl, rel, "S3", "log_probs_t")
+    col.count("gather_by_source_index_sites", n_g)
+
+    # ---- S4 finished-path forcing and padding ----------------------------------------------------------
+    fills = [c for c in own_calls(fwd.node) if isinstance(c.func, ast.Attribute) and c.func.attr == "masked_fill"
+             and len(c.args) == 2]
+    eos_fills = []
+    for c in fills:
+        mder = rd.derives(c.args[0])
+        if any(isinstance(x, ast.Attribute) and u(x) == "self.eos" for x in mder.nodes()):
+            eos_fills.append(c)
+    col.floor("eos_forcing_fills", len(eos_fills), 2)
+    vals = sorted("-inf" if is_neg_inf(c.args[1]) else u(c.args[1]) for c in eos_fills)
+    col.ob("G13", "S4", f"{where}::finished-paths-forced-to-eos", vals == ["-inf", "0.0"],
+           f"finished paths' extension scores are filled with {vals}; expected -inf everywhere and 0.0 at eos "
+           f"(probability one on re-emitting eos)", rel, eos_fills[0].lineno if eos_fills else fwd.line, sample=vals)
+    # order: -inf first, then 0.0 on the eos column (the second mask includes the one-hot of eos)
+    if len(eos_fills) == 2:
+        first, second = sorted(eos_fills, key=lambda c: c.lineno)
+        ok = is_neg_inf(first.args[1]) and any(call_name(x).endswith("one_hot") for x in rd.derives(second.args[0]).calls())
+        col.ob("G13", "S4", f"{where}::eos-forcing-order", ok,
+               "the 0.0 fill of the eos column must come after the -inf fill and use the one-hot of eos", rel,
+               second.lineno)
+    # length decrement for finished paths uses the same eos mask, gathered by the (beam-local) source index
+    dec = [n for n in own_nodes(fwd.node) if isinstance(n, ast.Assign) and isinstance(n.value, ast.BinOp)
+           and isinstance(n.value.op, ast.Sub) and u(n.targets[0]) == u(n.value.left)
+           and u(n.targets[0]) == sl.slot_name(sl.adv_assign, (1,))]
+    col.ob("G13", "S4", f"{where}::finished-paths-length-frozen", len(dec) == 1 and "gather" in u(dec[0].value.right),
+           "the length of a path that had finished before the step is not decremented back (lengths would count "
+           "the re-emitted eos)", rel, dec[0].lineno if dec else fwd.line, sample=u(dec[0]) if dec else None)
+    # padding: pad_y uses self.pad_value; scores padded with -inf (both _to_width and advance)
+    pads = [n for n in own_nodes(fwd.node) if isinstance(n, ast.Assign) and isinstance(n.value, ast.Call)
+            and call_name(n.value) == "torch.full" and "pad" in u(n.targets[0])]
+    okp = bool(pads) and all(len(n.value.args) >= 2 and u(n.value.args[1]) == "self.pad_value" for n in pads)
+    col.ob("G13", "S4", f"{where}::pad-value", okp, "finished batch elements are not padded with self.pad_value", rel,
+           pads[0].lineno if pads else fwd.line)
+    tw = pkg.func(f"{MOD}::BeamSearch._to_width")
+    for f_, tag in ((tw, "BeamSearch._to_width"), (adv, ADV)):
+        rdx = ReachingDefs(f_.node)
+        n_ = 0
+        for n in own_nodes(f_.node):
+            if isinstance(n, ast.Assign) and isinstance(n.value, ast.Call) and call_name(n.value) == "torch.cat" \
+                    and isinstance(n.value.args[0], (ast.List, ast.Tuple)) and "log_probs" in u(n.targets[0]):
+                n_ += 1
+                e = n.value.args[0].elts[1]
+                ok = isinstance(e, ast.Call) and call_name(e).split(".")[-1] in ("new_full", "full") \
+                    and len(e.args) >= 2 and is_neg_inf(e.args[1])
+                col.ob("G13", "S4", f"{rel}::{tag}::unusable-slots=-inf", ok,
+                       f"`{u(n)[:90]}` pads scores with something other than -inf (an unusable slot would outrank "
+                       f"real paths)", rel, n.lineno, sample=u(n)[:120])
+        col.floor(f"score_pad_sites[{tag}]", n_, 1)
+    plumbing(ctx, "S1")
+    return dict(
+        explanation=(
+            "Decides for C04: (S1) the step function returns (paths, lengths, top-k values, top-k index // V) over "
+            "joint scores prev + ext, token = index % V; (S2) the model state re-ordered after a step is the state "
+            "returned by that step's lm.calc_idx_log_probs, the next step consumes the re-ordered state and the "
+            "same-slot results of the previous step; (S3) per-element gathers use the beam-local source index and "
+            "extract_by_src the flat one with the stride the scores were shaped with; (S4) finished paths are "
+            "forced to eos with (-inf, then 0.0 at eos), their length is restored, padding uses pad_value and "
+            "unusable slots get -inf. NOT decided: distinctness, best-first order, score equality with the chained "
+            "model probability, exhaustiveness, batch-vs-single equality (search trajectories over runtime scores)."),
+        decided=["S1", "S2", "S3", "S4"],
+        not_decided=["distinctness", "best-first order", "score equals chained model log-probability",
+                     "exhaustive at large width", "batch element independence"],
+        assumptions=["user language models implement extract_by_src as documented (opaque)"],
+    )
+
+
+def _mutants():
+    from selftest.mutate import Mutant as M
+    D = "_decoding.py"
+    return [
+        M("stale-state", D, "prev = self.lm.extract_by_src(in_next, next_src.flatten())",
+          "prev = self.lm.extract_by_src(prev, next_src.flatten())", "extract_by_src(state of this step)"),
+        M("state-not-reordered", D, "prev = self.lm.extract_by_src(in_next, next_src.flatten())", "prev = in_next",
+          "G16/S2"),
+        M("offset-before-gather", D,
+          "if self.eos is not None:\n    y_next_lens = y_next_lens - eos_mask.gather(1, next_src).to(y_next_lens)\nnext_src = torch.arange(0, prev_width * N, prev_width, device=next_src.device).unsqueeze(1) + next_src",
+          "next_src = torch.arange(0, prev_width * N, prev_width, device=next_src.device).unsqueeze(1) + next_src\nif self.eos is not None:\n    y_next_lens = y_next_lens - eos_mask.gather(1, next_src).to(y_next_lens)",
+          "beam-local-index"),
+        M("extract-with-local-index", D,
+          "next_src = torch.arange(0, prev_width * N, prev_width, device=next_src.device).unsqueeze(1) + next_src\nprev = self.lm.extract_by_src(in_next",
+          "prev = self.lm.extract_by_src(in_next", "flat-index"),
+        M("stride-self-width", D, "torch.arange(0, prev_width * N, prev_width, device=next_src.device).unsqueeze(1) + next_src\nprev = self.lm.extract_by_src(in_next",
+          "torch.arange(0, self.width * N, self.width, device=next_src.device).unsqueeze(1) + next_src\nprev = self.lm.extract_by_src(in_next", "stride"),
+        M("eos-fill-values-swapped", D, "log_probs_t = log_probs_t.masked_fill(eos_mask_, 0.0)",
+          "log_probs_t = log_probs_t.masked_fill(eos_mask_, -float('inf'))", "finished-paths-forced-to-eos"),
+        M("length-not-frozen", D, "y_next_lens = y_next_lens - eos_mask.gather(1, next_src).to(y_next_lens)", "pass",
+          "finished-paths-length-frozen"),
+        M("pad-zero", D, "pad_y = torch.full((1, N, self.width), self.pad_value, device=device, dtype=torch.long)",
+          "pad_y = torch.full((1, N, self.width), 0, device=device, dtype=torch.long)", "pad-value"),
+        M("to-width-pad-zero", D, "log_probs_prev.new_full((N, rem), -float('inf'))", "log_probs_prev.new_full((N, rem), 0.0)",
+          "unusable-slots=-inf"),
+        M("advance-returns-indices-as-scores", D, "return (y_next, y_next_lens, log_probs_next, next_src)",
+          "return (y_next, y_next_lens, next_src, log_probs_next)", "G2/S1"),
+        M("topk-on-ext-only", D, "cand_log_probs = (log_probs_prev.unsqueeze(2) + log_probs_t).flatten(1)",
+          "cand_log_probs = log_probs_t.flatten(1)", "candidates=prev+ext"),
+        M("lens-scores-swapped-feedback", D, "y_prev_lens = y_next_lens\nlog_probs_prev = log_probs_next",
+          "y_prev_lens = y_next_lens\nlog_probs_prev = log_probs_t.max(2)[0]", "log_probs_prev<-slot 2"),
+        M("twin:rename-in-next", D, "in_next", "state_next", "", -1, twin=True),
+    ]
+
+
+def selftest(ctx: Ctx):
+    from selftest.mutate import run_selftest
+    return run_selftest("C04", ctx.pkg.repo, _mutants(), floor=10)
+
+
+MANIFEST = dict(
+    level_text=(
+        "Static dataflow analysis (no execution) of beam_search_advance and BeamSearch.forward: slot roles of the "
+        "step function, def-use version rules showing that the language-model state re-ordered after a step is "
+        "this step's state and is what the next step consumes, index-space kinds (beam-local for per-element "
+        "gathers, flat with the right stride for extract_by_src), and the sentinel tables for finished paths and "
+        "unusable slots. Necessary conditions of 'model state must follow the surviving paths' and 'unusable slots "
+        "carry -inf'; distinctness/order/score equality over search trajectories are not decided."),
+    level_note="Trusted: python ast; torch gather/topk semantics; user language models are opaque.",
+    technique="static analysis: reaching definitions (def-use versions), index-space kind checking, literal sentinel tables, argument binding",
+    design_ref="DESIGN.md section 4 C04",
+)
